@@ -297,6 +297,11 @@ pub struct Server {
     /// If server connection requires reset statements before checkin
     cleanup_state: CleanupState,
 
+    /// Set when a client claims the connection, cleared only once `checkin_cleanup`
+    /// has completed. A connection that goes back to the pool without a completed
+    /// cleanup (early return, panic, dropped future) is discarded instead of reused.
+    needs_checkin_cleanup: bool,
+
     /// Mapping of clients and servers used for query cancellation.
     client_server_map: ClientServerMap,
 
@@ -807,6 +812,7 @@ impl Server {
                         in_copy_mode: false,
                         data_available: false,
                         bad: false,
+                        needs_checkin_cleanup: false,
                         cleanup_state: CleanupState::new(),
                         client_server_map,
                         addr_set,
@@ -1237,6 +1243,9 @@ impl Server {
         if self.bad {
             return self.bad;
         };
+        if self.needs_checkin_cleanup {
+            return true;
+        }
         let cached_resolver = CACHED_RESOLVER.load();
         if cached_resolver.enabled() {
             if let Some(addr_set) = &self.addr_set {
@@ -1286,6 +1295,8 @@ impl Server {
 
     /// Claim this server as mine for the purposes of query cancellation.
     pub fn claim(&mut self, process_id: i32, secret_key: i32) {
+        self.needs_checkin_cleanup = true;
+
         let mut guard = self.client_server_map.lock();
         guard.insert(
             (process_id, secret_key),
@@ -1358,7 +1369,11 @@ impl Server {
 
         if self.in_copy_mode() {
             warn!(target: "pgcat::server::cleanup", "Server returned while still in copy-mode");
+            // There is no way to leave the COPY sub-protocol from here, don't reuse the connection.
+            self.mark_bad("returned while still in copy-mode");
         }
+
+        self.needs_checkin_cleanup = false;
 
         Ok(())
     }
